@@ -383,11 +383,11 @@ class ndarray:
             t = int
         elif t is b_float:
             t = float
-        if t in (int, _np.int64, _np.int32, 'int'):
+        if _int_dtype(t):
             if self.d.dtype == object:
                 return ndarray(_np.array([core.sint(v) for v in self.d.reshape(-1)], dtype=_np.int64).reshape(self.d.shape), _raw=True)
             return ndarray(self.d.astype(_np.int64), _raw=True)
-        if t in (float, _np.float64, 'float'):
+        if t in (float, _np.float64, _np.float32, 'float', 'float64'):
             return ndarray(self.d.copy(), _raw=True)
         if t is bool:
             return ndarray(_concretize_mask(_obj(self.d)), _raw=True)
@@ -411,13 +411,32 @@ def _mul(a, b):
 
 # ----------------------------------------------------------------------------- constructors
 
+def _int_dtype(t):
+    return t is not None and (t in (int, _np.int64, _np.int32, _np.intp, 'int', 'int64', 'int32', 'i8', 'i4') or t is BUILTINS.get('int'))
+
+
+def _float_dtype(t):
+    return t is not None and (t in (float, _np.float64, _np.float32, 'float', 'float64', 'f8', 'd') or t is BUILTINS.get('float'))
+
+
+def _to_real(d):
+    """int64 / bool buffer -> object buffer of exact rationals (what a float array is in this model)"""
+    o = _np.empty(d.shape, dtype=object)
+    of = o.reshape(-1)
+    for i, v in enumerate(d.reshape(-1)):
+        of[i] = Fr(int(v))
+    return o
+
+
 def array(x, dtype=None):
     if isinstance(x, ndarray):
         r = ndarray(x.d.copy(), _raw=True)
     else:
         r = ndarray(_raw(x), _raw=True)
-    if dtype in (int, _np.int64):
+    if _int_dtype(dtype):
         r = r.astype(int) if r.d.size else ndarray(_np.zeros(r.d.shape, dtype=_np.int64), _raw=True)
+    elif _float_dtype(dtype) and r.d.dtype != object:
+        r = ndarray(_to_real(r.d), _raw=True)
     return r
 
 
@@ -438,7 +457,7 @@ def _as_len(n):
 
 
 def zeros(n, dtype=None):
-    if dtype in (int, _np.int64):
+    if _int_dtype(dtype):
         return ndarray(_np.zeros(_shape(n), dtype=_np.int64), _raw=True)
     o = _np.empty(_shape(n), dtype=object)
     o.fill(Fr(0))
@@ -450,6 +469,8 @@ def empty(n, dtype=None):
 
 
 def full(n, v, dtype=None):
+    if _float_dtype(dtype) and isinstance(v, (int, _np.integer)) and not isinstance(v, (bool, _np.bool_)):
+        v = Fr(int(v))
     if isinstance(v, (bool, _np.bool_)):
         return ndarray(_np.full(_shape(n), bool(v)), _raw=True)
     o = _np.empty(_shape(n), dtype=object)
@@ -458,20 +479,23 @@ def full(n, v, dtype=None):
 
 
 def ones(n, dtype=None):
-    if dtype in (int, _np.int64):
+    if _int_dtype(dtype):
         return ndarray(_np.ones(_shape(n), dtype=_np.int64), _raw=True)
     o = _np.empty(_shape(n), dtype=object)
     o.fill(Fr(1))
     return ndarray(o, _raw=True)
 
 
-def ones_like(a):
+def ones_like(a, dtype=None):
     d = _raw(a)
-    return ones(d.shape, int if d.dtype == _np.int64 else None)
+    return ones(d.shape, dtype if dtype is not None else (int if d.dtype == _np.int64 else None))
 
 
-def full_like(a, v):
-    return full(_raw(a).shape, v)
+def full_like(a, v, dtype=None):
+    d = _raw(a)
+    if dtype is None and d.dtype == object and isinstance(v, (int, _np.integer)) and not isinstance(v, (bool, _np.bool_)):
+        v = Fr(int(v))
+    return full(d.shape, v, dtype)
 
 
 def clip(a, lo, hi):
@@ -534,19 +558,30 @@ def linspace(a, b, num=50):
     return ndarray(_norm(_list1d([a + (b - a) * Fr(i, num - 1) for i in range(num)])), _raw=True)
 
 
-def zeros_like(a):
+def zeros_like(a, dtype=None):
     d = _raw(a)
+    if dtype is not None:
+        return zeros(d.shape, dtype)
     if d.dtype == _np.int64:
         return ndarray(_np.zeros_like(d), _raw=True)
+    if d.dtype == bool:
+        return ndarray(_np.zeros(d.shape, dtype=bool), _raw=True)
     return zeros(d.shape)
 
 
-def empty_like(a):
-    return zeros_like(a)
+def empty_like(a, dtype=None):
+    return zeros_like(a, dtype)
 
 
-def arange(*a):
-    return ndarray(_np.arange(*[int(v) for v in a]), _raw=True)
+def arange(*a, dtype=None):
+    if any(isinstance(v, (Fr, float)) and to_fr(v).denominator != 1 for v in a):
+        start, stop, step = (to_fr(a[0]), to_fr(a[1]), to_fr(a[2]) if len(a) > 2 else Fr(1)) if len(a) > 1 else (Fr(0), to_fr(a[0]), Fr(1))
+        k = max(0, -((start - stop) // step))
+        return array([start + i * step for i in range(int(k))])
+    r = ndarray(_np.arange(*[int(v) for v in a]), _raw=True)
+    if _float_dtype(dtype) or (not _int_dtype(dtype) and any(isinstance(v, (Fr, float)) for v in a)):
+        r = ndarray(_to_real(r.d), _raw=True)
+    return r
 
 
 # ----------------------------------------------------------------------------- element-wise
@@ -1072,6 +1107,8 @@ def make_numpy():
     m.nan = None
     m.float64 = float
     m.int64 = int
+    from . import ndx
+    ndx.install(m)
 
     def __getattr__(name):
         raise NotEncodable('numpy.%s is not modelled' % name)
